@@ -460,6 +460,8 @@ def lin_validate_file(work, path):
         with open(cur) as f:
             lines = f.readlines()
         bad.append(lines[hw - 1].rstrip('\n'))
+        if len(bad) >= 4:
+            break       # enough witnesses from this file (each further one costs another TLC run)
         nxt = work.fresh('linrest') + '.ndjson'
         with open(nxt, 'w') as f:
             f.writelines(lines[hw:])
